@@ -123,9 +123,19 @@ def _run_chunk(args):
         except BaseException as e:  # harness failure: never silently dropped
             if isinstance(e, (KeyboardInterrupt, SystemExit)):
                 raise
-            o = Outcome("harness-error", True).viol(
-                "harness|%s" % type(e).__name__,
-                "harness raised: " + "".join(traceback.format_exception(e))[-1500:])
+            tb = traceback.extract_tb(e.__traceback__)
+            repo = os.path.realpath(os.environ.get("VERIF_REPO", "/repo")) + os.sep
+            if tb and os.path.realpath(tb[-1].filename).startswith(repo):
+                # the code under test raised where the driver expected a result
+                o = Outcome("target-raised", True).viol(
+                    "raised|%s|%s" % (type(e).__name__, tb[-1].name),
+                    "code under test raised %s in %s (%s): %s\n%s" % (
+                        type(e).__name__, tb[-1].name, os.path.basename(tb[-1].filename), e,
+                        "".join(traceback.format_exception(e))[-1200:]))
+            else:
+                o = Outcome("harness-error", True).viol(
+                    "harness|%s" % type(e).__name__,
+                    "harness raised: " + "".join(traceback.format_exception(e))[-1500:])
         k = o.key if o.key is not None else case
         res.append((o.cls, o.nontrivial, case_hash(k), o.viols, o.extra, lo + i))
     return res
